@@ -21,7 +21,7 @@ func TestC20(t *testing.T) {
 	harness.Check(t, "C20",
 		"chain-simulator histories (real txs through DeliverTx) of 8-20 blocks with 0-4 txs each over a generated world (1-3 genesis apps, 5 funded candidate keys with "+
 			"balances around the stake amounts, fresh keys, strangers; unstaking time 0/5/20 s; block time steps 0-40 s): new stakes, edit-stakes (bump / same / lower), "+
-			"transfers (to fresh, funded, existing, same key; by current app / stranger / forged pubkey / new key), begin-unstakes, gov param changes, sends. "+
+			"transfers (to fresh, funded, existing, same key; by current app / stranger / forged pubkey / new key), begin-unstakes (half of them aimed at applications transferred or bumped earlier), gov param changes, sends. "+
 			"Oracle after every Commit: balance of the application staked pool (auth store) == sum of StakedTokens over raw application records with status Staked or Unstaking. "+
 			"non-trivial = an application that was the target of a successful transfer or a successful stake bump later completes unstaking (record removed at maturity) in the same history",
 		map[string]float64{"transfer-ok": 0.4, "edit-bump-ok": 0.4, "unstake-completed": 0.6, "transfer-then-unstake-completed": 0.1, "bump-then-unstake-completed": 0.1},
